@@ -1,5 +1,8 @@
 import RulioModel.StateInv
 
+set_option linter.unusedSimpArgs false
+set_option linter.unusedVariables false
+
 /-! # Association-list and term-index lemmas (core Lean only) -/
 
 /-! ## filterOut -/
@@ -54,14 +57,14 @@ theorem amGet_none_iff {α} {m : List (String × α)} {k : String} : amGet m k =
     · rename_i hk; simp at hk; subst hk; simp
     · rename_i hk; simp at hk; simp [ih, hk]
 
-theorem amGet_isSome_iff {α} {m : List (String × α)} {k : String} : (amGet m k).isSome ↔ k ∈ m.map (·.1) := by
+theorem amGet_isSome_iff_st {α} {m : List (String × α)} {k : String} : (amGet m k).isSome ↔ k ∈ m.map (·.1) := by
   cases h : amGet m k with
   | none => simp [amGet_none_iff.1 h]
   | some v =>
     simp only [Option.isSome_some, true_iff]
     exact Classical.byContradiction (fun hn => by rw [amGet_none_iff.2 hn] at h; cases h)
 
-theorem amGet_of_mem_nodup {α} {m : List (String × α)} {k : String} {v : α}
+theorem amGet_of_mem_nodup_st {α} {m : List (String × α)} {k : String} {v : α}
     (hn : (m.map (·.1)).Nodup) (h : (k, v) ∈ m) : amGet m k = some v := by
   induction m with
   | nil => simp at h
@@ -88,7 +91,7 @@ theorem amHas_eq_isSome {α} (m : List (String × α)) (k : String) : amHas m k 
     · have : (k' == k) = false := by simp; exact fun h => hk h.symm
       simp [hk, this, ih]
 
-theorem amGet_amErase {α} (m : List (String × α)) (k k' : String) :
+theorem amGet_amErase_st {α} (m : List (String × α)) (k k' : String) :
     amGet (amErase m k) k' = if k' = k then none else amGet m k' := by
   induction m with
   | nil => simp [amErase, amGet]
@@ -183,7 +186,7 @@ theorem amSet_nodup {α} (m : List (String × α)) (k : String) (v : α) (hn : (
     simp at hb; subst hb
     intro hab; subst hab; exact h ha
 
-theorem amGet_amSet {α} (m : List (String × α)) (k k' : String) (v : α) :
+theorem amGet_amSet_st {α} (m : List (String × α)) (k k' : String) (v : α) :
     amGet (amSet m k v) k' = if k' = k then some v else amGet m k' := by
   simp only [amSet]
   split
